@@ -76,15 +76,32 @@ def specFirst (expected : Option Nat) (first : Nat) : Bool :=
 def specOrder (config order : List Nat) : Bool :=
   order.length == config.length && distinct order && config.all order.contains
 
+/-- What clause 2 means when calls OVERLAP.  "The endpoint that succeeds becomes the first one
+    tried next" has no literal meaning when two calls succeed concurrently at different endpoints.
+    What an observer can demand under ANY interleaving: a call that succeeded only after failing
+    over (it tried more than one endpoint) promotes its endpoint, and that endpoint stays first
+    until the next such success; a call that succeeded at the first endpoint it tried changes
+    nothing.  So the first endpoint tried by any call is the endpoint of the most recent
+    fail-over success, or the first configured endpoint if there was none.  For calls that
+    overlap no other this implies the literal clause (checked separately by `specFirst`). -/
+def specFirstAny (config : List Nat) (lastFailover : Option Nat) (first : Nat) : Bool :=
+  match lastFailover with
+  | some e => e == first
+  | none => config.head? == some first
+
 /-- spec-side bookkeeping for sequential/controlled histories (from the ops and the results) -/
 structure Hist where
   config : List Nat
   /-- calls in flight, with "has overlapped another call" -/
   inflight : List (Nat × Bool)
+  /-- endpoint of the last successful call, when that call overlapped no other -/
   expectFirst : Option Nat
+  /-- endpoint of the most recent success that tried more than one endpoint -/
+  lastFailover : Option Nat
   deriving DecidableEq, Repr
 
-def Hist.new (config : List Nat) : Hist := { config := config, inflight := [], expectFirst := none }
+def Hist.new (config : List Nat) : Hist :=
+  { config := config, inflight := [], expectFirst := none, lastFailover := none }
 
 def Hist.start (h : Hist) (c : Nat) : Hist :=
   if h.inflight.isEmpty then { h with inflight := [(c, false)] }
@@ -95,12 +112,15 @@ def Hist.overlapped (h : Hist) (c : Nat) : Bool :=
   | some p => p.2
   | none => true
 
-def Hist.finish (h : Hist) (c : Nat) (r : Res) : Hist :=
+/-- a call finished; `ntried` = number of endpoints it sent requests to -/
+def Hist.finish (h : Hist) (c : Nat) (r : Res) (ntried : Nat) : Hist :=
   let ov := h.overlapped c
   let rest := h.inflight.filter (fun p => p.1 != c)
   match r with
-  | .ok e => { h with inflight := rest, expectFirst := if ov then none else some e }
-  | .parseErr e => { h with inflight := rest, expectFirst := if ov then none else some e }
+  | .ok e => { h with inflight := rest, expectFirst := if ov then none else some e,
+                      lastFailover := if ntried > 1 then some e else h.lastFailover }
+  | .parseErr e => { h with inflight := rest, expectFirst := if ov then none else some e,
+                            lastFailover := if ntried > 1 then some e else h.lastFailover }
   | .err _ _ => { h with inflight := rest }
 
 def Hist.drop (h : Hist) (c : Nat) : Hist :=
